@@ -13,8 +13,8 @@ impl Check for C02 {
     fn rule() -> String {
         "proptest histories (as C01, small values, more clustered keys and bulk inserts/deletes that cross the 20-leaf page-elision \
          threshold) under random configurations; FinishedSession::root, Overlay::root and Nomt::root after every commit and after \
-         reopen are compared with an independent from-scratch reference trie over the model map (empty => zero, single => leaf hash). \
-         Non-trivial = >=2 keys with a pair sharing >=6 bits (path leaves the root page) and >=2 commits; distinct = distinct serialized case".into()
+         reopen are compared with an independent from-scratch reference trie over the model map (empty => zero, single => leaf hash). One case in 24 additionally crashes its last operation at every I/O event boundary: the root of every \
+         recovered store, and the root of a further commit on it, must be the reference root as well. Non-trivial = >=2 keys with a pair sharing >=6 bits (path leaves the root page) and >=2 commits; distinct = distinct serialized case".into()
     }
     fn assumptions() -> Vec<String> {
         vec!["reference trie uses blake3/sha2 crates directly with the MSB labelling of core/src/hasher.rs".into()]
@@ -43,6 +43,14 @@ impl Check for C02 {
             ..Default::default()
         };
         let mut info = dispatch(case, &obs, &ctx.scratch, 4 << 20)?;
+        // the root must also be the canonical one on a store that came out of a crash recovery - right after the
+        // recovery and after the next commit on it (1 case in 24: last operation crashed at every I/O event boundary)
+        if info.discarded.is_none() {
+            if let Some(n) = crate::crash::recovery_tier(case, ctx, 24, 24, "store reached through crash recovery")? {
+                info.add("recovered_stores_judged", n);
+                info.bump("cases_with_crash_recovery");
+            }
+        }
         let l = |k: &str| info.labels.get(k).copied().unwrap_or(0);
         info.nontrivial = info.discarded.is_none()
             && l("commits") >= 2
